@@ -24,9 +24,32 @@ import (
 
 type vfRemoteHost struct {
 	host.Host
-	ps      *vfLatencyStore
-	streams []*vfRStream
-	openErr bool
+	ps        *vfLatencyStore
+	streams   []*vfRStream
+	openErr   bool
+	onWrite   func() // runs when the remote has received a complete request
+	simple    bool   // remote behaviours limited to answer or simpleBad; opening and writing never fail
+	simpleBad int
+}
+
+// dropConnection: the connection to the peer is gone, the network resets
+// every stream on it.
+func (h *vfRemoteHost) dropConnection() {
+	for _, s := range h.streams {
+		if !s.reset && !s.closed {
+			_ = s.Reset()
+		}
+	}
+}
+
+func (h *vfRemoteHost) openStreams() int {
+	n := 0
+	for _, s := range h.streams {
+		if !s.reset && !s.closed {
+			n++
+		}
+	}
+	return n
 }
 
 type vfLatencyStore struct{ peerstore.Peerstore }
@@ -39,10 +62,12 @@ func (h *vfRemoteHost) NewStream(ctx context.Context, p peer.ID, _ ...protocol.I
 	if err := ctx.Err(); err != nil {
 		return nil, err
 	}
-	for _, s := range h.streams {
-		vfAssert(s.reset || s.closed, "stream/at-most-one-open-stream-per-peer")
+	if !h.simple {
+		for _, s := range h.streams {
+			vfAssert(s.reset || s.closed, "stream/at-most-one-open-stream-per-peer")
+		}
 	}
-	if vfBool("newStream.fails") {
+	if !h.simple && vfBool("newStream.fails") {
 		return nil, errors.New("cannot open stream")
 	}
 	s := &vfRStream{h: h, id: len(h.streams), avail: make(chan struct{}, 64)}
@@ -52,14 +77,14 @@ func (h *vfRemoteHost) NewStream(ctx context.Context, p peer.ID, _ ...protocol.I
 
 type vfRStream struct {
 	network.Stream
-	h       *vfRemoteHost
-	id      int
-	inbox   []byte // what the client wrote, not yet consumed as frames
-	outbox  []byte // what the remote sent, not yet read by the client
-	avail   chan struct{}
-	reset   bool
-	closed  bool
-	served  int
+	h      *vfRemoteHost
+	id     int
+	inbox  []byte // what the client wrote, not yet consumed as frames
+	outbox []byte // what the remote sent, not yet read by the client
+	avail  chan struct{}
+	reset  bool
+	closed bool
+	served int
 }
 
 func (s *vfRStream) Reset() error {
@@ -96,7 +121,7 @@ func (s *vfRStream) Write(p []byte) (int, error) {
 	if s.reset || s.closed {
 		return 0, errors.New("stream reset")
 	}
-	if vfBool("write.fails") {
+	if !s.h.simple && vfBool("write.fails") {
 		return 0, errors.New("write failed")
 	}
 	s.inbox = append(s.inbox, p...)
@@ -122,7 +147,19 @@ func (s *vfRStream) Write(p []byte) (int, error) {
 		}
 		resp := pb.NewMessage(req.Type, req.Key, 0) // the reply echoes the request id carried in Key
 		b := vfFrame(resp)
-		switch vfChoose("remote.behaviour", 4) {
+		if s.h.onWrite != nil {
+			s.h.onWrite()
+		}
+		var beh int
+		if s.h.simple {
+			// answer, or (warm-up) reset / (concurrent phase) stay silent
+			if vfBool("remote.misbehaves") {
+				beh = s.h.simpleBad
+			}
+		} else {
+			beh = vfChoose("remote.behaviour", 4)
+		}
+		switch beh {
 		case 0:
 			s.deliver(b)
 		case 1: // late: after the client's read timeout
@@ -196,9 +233,14 @@ func VfRequestReplyMatching() {
 			vfWaitIdle()
 		}
 		ctx, cancel := context.WithCancel(context.Background())
-		if vfBool("callerCancels") {
+		h.onWrite = nil
+		switch vfChoose("callerCancels", 3) {
+		case 1:
 			// the caller gives up 3 s after sending (before any timeout)
 			time.AfterFunc(3*time.Second, cancel)
+		case 2:
+			// the caller gives up while the request is being written
+			h.onWrite = cancel
 		}
 		id := "request-" + strconv.Itoa(k)
 		nStreams := len(h.streams)
@@ -241,4 +283,65 @@ func VfRequestReplyMatching() {
 	vfReach("reply/end")
 }
 
+// VfConcurrentExchanges (C11): two concurrent callers and a disconnect
+// notification racing on one peer, after an optional warm-up exchange that may
+// have failed (leaving the sender with or without a stream).
+func VfConcurrentExchanges() {
+	vfSchedBudget(vfParam("SWITCH"))
+	vfSchedLIFO(vfBool("scheduleMostRecentlyWokenFirst"))
+	h := &vfRemoteHost{ps: &vfLatencyStore{}, simple: true}
+	m := NewMessageSenderImpl(h, []protocol.ID{"/vf/kad/1.0.0"})
+	p := peer.ID("remote")
+	h.simpleBad = 3
+	if vfBool("warmup") {
+		ctx, cancel := context.WithCancel(context.Background())
+		resp, err := m.SendRequest(ctx, p, pb.NewMessage(pb.Message_FIND_NODE, []byte("warmup"), 0))
+		cancel()
+		if err == nil {
+			vfAssert(resp != nil && string(resp.GetKey()) == "warmup", "reply/is-the-reply-to-that-very-request")
+		}
+		vfWaitIdle()
+	}
+	h.simpleBad = 2
+	C := vfParam("C")
+	done := 0
+	for c := 0; c < C; c++ {
+		id := "request-" + strconv.Itoa(c)
+		go func() {
+			ctx, cancel := context.WithCancel(context.Background())
+			resp, err := m.SendRequest(ctx, p, pb.NewMessage(pb.Message_FIND_NODE, []byte(id), 0))
+			cancel()
+			if err == nil {
+				vfAssert(resp != nil && string(resp.GetKey()) == id, "reply/is-the-reply-to-that-very-request")
+			} else {
+				vfAssert(resp == nil, "reply/no-reply-with-error")
+			}
+			done++
+		}()
+	}
+	if vfBool("disconnect") {
+		go func() {
+			h.dropConnection()
+			m.OnDisconnect(context.Background(), p)
+		}()
+	}
+	vfAdvance(time.Minute)
+	vfWaitIdle()
+	vfAssert(done == C, "reply/every-concurrent-call-returns")
+	{
+		// a later request, after everything has settled
+		h.simpleBad = 0
+		ctx, cancel := context.WithCancel(context.Background())
+		resp, err := m.SendRequest(ctx, p, pb.NewMessage(pb.Message_FIND_NODE, []byte("later"), 0))
+		cancel()
+		vfAssert(err == nil && resp != nil && string(resp.GetKey()) == "later", "reply/later-request-on-a-healthy-peer-succeeds")
+		vfAdvance(time.Minute)
+		vfWaitIdle()
+	}
+	vfAssert(h.openStreams() <= 1, "stream/at-most-one-open-stream-per-peer-at-rest")
+	vfAssert(vfBlockedGoroutines() <= 1, "reply/no-reader-goroutine-left-on-a-dead-stream")
+	vfReach("reply/concurrent-end")
+}
+
 var _ = vfRegister("VfRequestReplyMatching", VfRequestReplyMatching)
+var _ = vfRegister("VfConcurrentExchanges", VfConcurrentExchanges)
